@@ -154,7 +154,25 @@ where
                 b2 = b2.default(*d);
             }
             let got2 = b2.finish().map_err(|e| e.get_code());
-            let got3 = if def.is_none() { Some(nv.finish_with(*max, *min).map_err(|e| e.get_code())) } else { None };
+            let got3 = if def.is_none() {
+                Some(nv.finish_with(*max, *min).map_err(|e| e.get_code()))
+            } else {
+                // the default configured *before* the bounds, and between them
+                let d = def.unwrap();
+                let a = nv.build().default(d).max(*max).min(*min).finish().map_err(|e| e.get_code());
+                let b = nv.build().max(*max).default(d).min(*min).finish().map_err(|e| e.get_code());
+                let c = NumericBuilder::new(nv, *max, *min).default(d).max(*max).finish().map_err(|e| e.get_code());
+                let same = |x: &Result<T, i16>, y: &Result<T, i16>| match (x, y) {
+                    (Ok(p), Ok(q)) => p == q,
+                    (Err(p), Err(q)) => p == q,
+                    _ => false,
+                };
+                if same(&a, &b) && same(&b, &c) {
+                    Some(a)
+                } else {
+                    Some(Err(i16::MIN))
+                }
+            };
             let eq = |a: &Result<T, i16>, b: &Result<T, i16>| match (a, b) {
                 (Ok(x), Ok(y)) => x == y,
                 (Err(x), Err(y)) => x == y,
@@ -262,7 +280,7 @@ pub fn run(ctx: &'static Ctx) -> i32 {
     let mut c = cov();
     c.insert("evaluations".into(), json!(acc.evals));
     c.insert("distinct_nontrivial".into(), json!(acc.keyword_tokens + acc.range_errors));
-    c.insert("rule".into(), json!(format!("{} tokens (every case pattern of short and long form of MAXimum MINimum DEFault UP DOWN, every prefix and suffixed near miss, INF/NINF/NAN, 40 decimal literals around every bound and half, suffixed numbers, non-decimal values, string/block/expression) x 8 underlying types (u8 i16 i32 u64 f32 f64 Frequency<f32> Time<f64>): keyword spellings (reference keyword matcher) must give the keyword variant, everything else must convert exactly as the underlying type (same value or same error). Every resulting NumericValue, every grid value, NaN and each keyword variant is resolved against every (min <= max, default none/min/max/middle) configuration over a 7-point grid per type (incl. type extremes, +-inf, min = max) through NumericBuilder::new, build().max().min().default() and finish_with: MAX -> max, MIN -> min, DEF -> default or -224, UP/DOWN -> -224, value -> itself iff min <= v <= max else -222, NaN never resolves, every resolved value lies within [min,max]. Distinct non-trivial = keyword tokens + resolutions that end in an error", token_table().len())));
+    c.insert("rule".into(), json!(format!("{} tokens (every case pattern of short and long form of MAXimum MINimum DEFault UP DOWN, every prefix and suffixed near miss, INF/NINF/NAN, 40 decimal literals around every bound and half, suffixed numbers, non-decimal values, string/block/expression) x 8 underlying types (u8 i16 i32 u64 f32 f64 Frequency<f32> Time<f64>): keyword spellings (reference keyword matcher) must give the keyword variant, everything else must convert exactly as the underlying type (same value or same error). Every resulting NumericValue, every grid value, NaN and each keyword variant is resolved against every (min <= max, default none/min/max/middle) configuration over a 7-point grid per type (incl. type extremes, +-inf, min = max) through NumericBuilder::new, build() with default() called before, between and after max()/min(), and finish_with: MAX -> max, MIN -> min, DEF -> default or -224, UP/DOWN -> -224, value -> itself iff min <= v <= max else -222, NaN never resolves, every resolved value lies within [min,max]. Distinct non-trivial = keyword tokens + resolutions that end in an error", token_table().len())));
     c.insert("exhaustive".into(), json!(true));
     c.insert("resolutions_ok".into(), json!(acc.resolved));
     c.insert("resolutions_err".into(), json!(acc.range_errors));
